@@ -380,6 +380,12 @@ fn eval_lib(out: &mut Out, rng: &mut Rng, n: u64) {
         if a != 0 {
             let r = catch(|| lib_helpers::bump_down(core::num::NonZeroUsize::new(a).unwrap(), sz, big));
             out.line(&format!("lib_bump_down {a} {sz} {big}"), &show_m(r, |x| format!("{x}")));
+            // direct oracle: an impossible (over-large) request must come out as "does not fit"
+            // (address 0 after saturation), never as a panic or a wrapped address
+            match r {
+                Some(x) => out.line(&format!("spec_lib_bump_down {a} {sz} {big}"), &format!("{x}")),
+                None => out.line(&format!("spec_lib_bump_down {a} {sz} {big}"), "IMPL-PANIC"),
+            }
         }
         let up = rng.chance(1, 2);
         let r = catch(|| lib_helpers::align_pos(up, al.min(16), a));
